@@ -1,6 +1,7 @@
 package main
 
 import (
+	"runtime/pprof"
 	"encoding/json"
 	"flag"
 	"fmt"
@@ -649,6 +650,7 @@ func cmdCheck(args []string) int {
 	fs.BoolVar(&cfg.NoReplay, "noreplay", false, "skip native replay")
 	fs.IntVar(&cfg.MaxPaths, "maxpaths", 400000, "path budget per work item")
 	fs.BoolVar(&cfg.Progress, "progress", false, "print work item progress to stderr")
+	cpuprof := fs.String("cpuprofile", "", "write cpu profile")
 	budgetMin := fs.Int("budget", 0, "wall-clock budget in minutes (default: quick 12, thorough 90)")
 	var pos []string
 	for len(args) > 0 && !strings.HasPrefix(args[0], "-") {
@@ -674,6 +676,11 @@ func cmdCheck(args []string) int {
 		cfg.VerdictTimeoutS = 900
 		cfg.FeasTimeoutMs = 60000
 		cfg.CrossCheckEvery = 4
+	}
+	if *cpuprof != "" {
+		pf, _ := os.Create(*cpuprof)
+		pprof.StartCPUProfile(pf)
+		defer pprof.StopCPUProfile()
 	}
 	t0 := time.Now()
 	if *budgetMin == 0 {
